@@ -297,7 +297,7 @@ pub fn tiles(bin: &str, input: &str, output: &str, dir: &str) -> Value {
 			let (zmin, zmax) = (tl.iter().map(|t| t.0).min().unwrap(), tl.iter().map(|t| t.0).max().unwrap());
 			let target = format!("/tiles/{}/tiles.json", pct(src["src"]["sid"].as_str().unwrap_or(id)));
 			let mut ev = json!({"ev":"tilesjson","id":0,"target":target,"q":{"src":src["src"],"flags":flags},"cov_minzoom":zmin,"cov_maxzoom":zmax,
-				"resp":{"status":-1},"valid":0,"template":"","minzoom":-1,"maxzoom":-1,"bounds_valid":0,"attribution_ok":0,"format":"","ctype":""});
+				"resp":{"status":-1},"valid":0,"template":"","minzoom":-1,"maxzoom":-1,"bounds_e6":[],"attribution":"","format":"","ctype":""});
 			if let Some(r) = client.get(&target, &[("Accept-Encoding", "gzip")]) {
 				ev["resp"] = json!({"status": r.status});
 				ev["ctype"] = json!(r.headers.get("content-type").cloned().unwrap_or_default());
@@ -308,10 +308,12 @@ pub fn tiles(bin: &str, input: &str, output: &str, dir: &str) -> Value {
 					ev["maxzoom"] = json!(o.get("maxzoom").and_then(|v| v.as_i64()).unwrap_or(-1));
 					ev["format"] = json!(o.get("format").and_then(|v| v.as_str()).unwrap_or(""));
 					let b: Vec<f64> = o.get("bounds").and_then(|b| b.as_array()).map(|a| a.iter().filter_map(|x| x.as_f64()).collect()).unwrap_or_default();
-					ev["bounds_valid"] = json!((b.len() == 4 && b[0] >= -180.0 && b[1] >= -90.0 && b[2] <= 180.0 && b[3] <= 90.0 && b[0] <= b[2] && b[1] <= b[3]) as u8);
+					// observations only: the bounds in millionths of a degree, the attribution text as served
+					ev["bounds_e6"] = json!(b.iter().map(|v| (v * 1e6).round().clamp(-2e9, 2e9) as i64).collect::<Vec<_>>());
 					// the attribution given to the container (formats that store arbitrary metadata)
 					let want = "\"a\" \\ b";
-					ev["attribution_ok"] = json!((src["src"]["fmt"] == "mbtiles" || o.get("attribution").and_then(|v| v.as_str()) == Some(want)) as u8);
+					let _ = want;
+					ev["attribution"] = json!(o.get("attribution").and_then(|v| v.as_str()).unwrap_or("<absent>"));
 				}
 			}
 			extra_events.push(ev);
